@@ -119,11 +119,12 @@ def rule_state(ctx):
         wl = [s for s in g.node.body if isinstance(s, ast.While)]
         if len(wl) == 1:
             incs = [s for s in wl[0].body if isinstance(s, ast.AugAssign) and norm(s.target) == curv and const_value(s.value) == 1 and isinstance(s.op, ast.Add)]
-            pre = [s for s in wl[0].body if isinstance(s, ast.Assign) and norm(s.value) == f'pack_be_uint16({curv})']
+            from .c03 import expand_locals
             cp = ctx.func('hist', 'History._compact_prefix')
             pcs = [c for c in walk_own(wl[0]) if isinstance(c, ast.Call) and ctx.res.resolve_ref(c.func, g) is not None and ctx.res.resolve_ref(c.func, g).key == cp.key]
-            okw = any(q.cmp_matches(ctx, g, x, f'{curv} < 65536') for x in pr.conjuncts(wl[0].test)) and len(incs) == 1 and len(pre) == 1 \
-                and pre[0].lineno < incs[0].lineno and len(pcs) == 1 and [norm(a) for a in pcs[0].args] == [norm(pre[0].targets[0]), wi, kd]
+            okw = any(q.cmp_matches(ctx, g, x, f'{curv} < 65536') for x in pr.conjuncts(wl[0].test)) and len(incs) == 1 \
+                and len(pcs) == 1 and len(pcs[0].args) == 3 and norm(expand_locals(g, pcs[0].args[0])) == f'pack_be_uint16({curv})' \
+                and [norm(a) for a in pcs[0].args[1:]] == [wi, kd] and q.stmt(pcs[0]).lineno < incs[0].lineno
     ctx.check(okc and okw, 'C14.STATE', ctx.key(g, None, 'cursor walk'),
               'a pass starts at comp_cursor, walks big-endian 2-byte prefixes upwards one by one (below 65536), compacting each into the pass\'s sets, and persists where it stopped',
               'the prefix walk does not start at comp_cursor / advance by one be16 prefix / compact each prefix into the sets it persists', loc=ctx.loc(g, g.node))
